@@ -13,16 +13,22 @@ CONSTANTS K,           \* maximal number of posts
           Emit,        \* print CASE lines
           GoalsAt(_),  \* alphabet of the n-th post
           Vals,        \* the ground valuations the denotations are compared over
-          Tag          \* name of the configuration (copied into the CASE lines)
+          Tag,         \* name of the configuration (copied into the CASE lines)
+          Slots        \* the first post is partitioned into this many initial states
+                       \* (TLC expands one state on one worker: this spreads the work)
 
-VARIABLES S, posted
-vars == <<S, posted>>
+VARIABLES S, posted, slot
+vars == <<S, posted, slot>>
 
-Init == S \in {InitStore(k) : k \in Sched} /\ posted = <<>>
+Init == S \in {InitStore(k) : k \in Sched} /\ posted = <<>> /\ slot \in 0..(Slots - 1)
+
+Slice(set, i) == LET seq == SetToSeq(set) IN {seq[j] : j \in {m \in 1..Len(seq) : m % Slots = i}}
 
 Next == /\ S.ok
         /\ Len(posted) < K
-        /\ \E g \in GoalsAt(Len(posted) + 1) : S' = Post(S, g) /\ posted' = Append(posted, g)
+        /\ slot' = slot
+        /\ \E g \in (IF Len(posted) = 0 THEN Slice(GoalsAt(1), slot) ELSE GoalsAt(Len(posted) + 1)) :
+              S' = Post(S, g) /\ posted' = Append(posted, g)
 
 Spec == Init /\ [][Next]_vars
 
